@@ -236,3 +236,10 @@ def r8(rr, repo):
     for c in sp:
         flags = [U(a) for a in c.args[1:]] + [U(k.value) for k in c.keywords if k.arg == 'flags']
         rr.ob('a request is pushed with DONTWAIT (a dead publisher cannot block the consumer)', any('DONTWAIT' in f or 'NOBLOCK' in f for f in flags), za.mod, c, witness=U(c)[:120], key='push-dontwait')
+
+
+@rule('C05.R9', "an ephemeral source coming or going never moves the synchronized stream's expected id: the shared expected id is (re)bound only at entry and to the id of an accepted synchronized message, a CLOSE "
+                "resets the closing source's own floor only (shares C02.R2)")
+def r9(rr, repo):
+    from .c02 import r2 as c02r2
+    c02r2(rr, repo)
